@@ -46,7 +46,7 @@ def other_fs_tmp():
     return None
 
 
-def runner(kind, inp, out, fault=None, count=False, hashseed=0):
+def runner(kind, inp, out, fault=None, count=False, hashseed=0, kill_after=None):
     with scratch() as cd:
         cfg = {"kind": kind, "inp": inp, "outdir": out, "cwd": cd, "walk_seed": None, "clock": None, "fault": fault, "count_ops": count}
         cf = os.path.join(cd, "cfg.json")
@@ -57,7 +57,19 @@ def runner(kind, inp, out, fault=None, count=False, hashseed=0):
         if other:
             env["TMPDIR"] = other     # the process's temporary directory lies on another file system than the output directory
         try:
-            p = subprocess.run([PY, "-W", "ignore", "-m", "harness.c06_runner", cf], cwd=VERIF, env=env, stdout=subprocess.PIPE, stderr=subprocess.PIPE, timeout=300)
+            if kill_after is None:
+                p = subprocess.run([PY, "-W", "ignore", "-m", "harness.c06_runner", cf], cwd=VERIF, env=env, stdout=subprocess.PIPE, stderr=subprocess.PIPE, timeout=300)
+            else:
+                # a real SIGKILL at a moment the harness does not choose at operation granularity
+                import time
+                pp = subprocess.Popen([PY, "-W", "ignore", "-m", "harness.c06_runner", cf], cwd=VERIF, env=env, stdout=subprocess.DEVNULL, stderr=subprocess.DEVNULL)
+                t_end = time.time() + kill_after
+                while time.time() < t_end and pp.poll() is None:
+                    time.sleep(0.002)
+                killed = pp.poll() is None
+                pp.kill()
+                pp.wait()
+                return {"killed": killed}, -9
         finally:
             if other:
                 shutil.rmtree(other, ignore_errors=True)
@@ -139,6 +151,42 @@ def one_case(ctx, kind, inp, user_seed, points, check_model=True):
         for r in results:
             if r:
                 return r
+        # real SIGKILL at random moments of the run (thorough tier / search mode): the moments fall between and INSIDE the operations
+        if ctx.broken or not ctx.quick:
+            import time
+            t_a = time.time()
+            w0 = os.path.join(d, "wk_time")
+            shutil.copytree(out, w0)
+            runner(kind, inp, w0, None)
+            dur = time.time() - t_a
+            shutil.rmtree(w0, ignore_errors=True)
+
+            def kill_run(j):
+                work = os.path.join(d, "wk_%d" % j)
+                shutil.copytree(out, work)
+                delay = dur * random.Random(user_seed * 1000 + j).uniform(0.35, 1.0)
+                try:
+                    res, _rc = runner(kind, inp, work, None, kill_after=delay)
+                    now = read_tree(work)
+                finally:
+                    shutil.rmtree(work, ignore_errors=True)
+                for p, old in t1.items():
+                    if now.get(p) != old and now.get(p) != tref.get(p):
+                        return {"kind": kind, "input": inp, "user_seed": user_seed, "sigkill_after_seconds": delay, "file": p,
+                                "detail": "pre-existing file %s is neither its old content nor the complete new content after SIGKILL %.3f s into the run "
+                                          "(%d bytes, old %d, new %d)" % (p, delay, len(now.get(p, b"")), len(old), len(tref.get(p, b""))),
+                                "finding_key": "c05:%s" % kind}, res
+                return None, res
+            with ThreadPoolExecutor(max_workers=4) as ex:
+                kres = list(ex.map(kill_run, range(16)))
+            for j, (r, res) in enumerate(kres):
+                ctx.case((kind, json.dumps(inp, sort_keys=True), user_seed, "sigkill", j))
+                ctx.count("sigkill_runs")
+                if res and res.get("killed"):
+                    ctx.count("sigkill_hit_a_running_process")
+            for r, _res in kres:
+                if r:
+                    return r
         # two faults in one run (an error that is survived, then a second fault): only in the thorough tier / search mode
         if (ctx.broken or not ctx.quick) and trace:
             opens = [i for i, (k, _a, _b) in enumerate(trace) if k == "open"][:8]
